@@ -493,7 +493,7 @@ def trial_values(handed, metric, conv="first"):
     return {t: [float(v) for v in tracked(vs, conv)[0] if not isnan(v)] for t, vs in per.items()}
 
 
-def check_best_tuner(handed, metric, mode, best, conv="first"):
+def check_best_tuner(handed, metric, mode, best, conv="first", known_trials=None):
     """best = (trial_id, value) as returned by print_best_metric_found / trial of Tuner.best_config"""
     per = trial_values(handed, metric, conv)
     allv = [v for vs in per.values() for v in vs]
@@ -503,7 +503,13 @@ def check_best_tuner(handed, metric, mode, best, conv="first"):
         return "no best trial reported although results were handed to the loop"
     t, v = best
     if not allv:
-        return None  # nothing to attain
+        # no counted value anywhere: the documented answer is a trial that was seen, with the default +-inf
+        if t not in per and not any(t == tt for tt, _ in handed) and t not in (known_trials or ()):
+            return "reported trial %r is unknown" % (t,)
+        dflt = INF if mode == "min" else -INF
+        if v is not None and float(v) != dflt:
+            return "no counted value of %s exists, reported value %r is not the default %r" % (metric, v, dflt)
+        return None
     opt = min(allv) if mode == "min" else max(allv)
     if v is not None and float(v) != opt:
         return "reported best %s of %s is %r, optimum over handed results is %r" % (mode, metric, v, opt)
@@ -598,6 +604,40 @@ def queries_for(names):
     return qs
 
 
+def raised(e):
+    """marker for 'the call raised' (the model side sees it as 'no answer')"""
+    return dict(raised=type(e).__name__, message=str(e)[:200])
+
+
+def is_raised(b):
+    return isinstance(b, dict) and "raised" in b
+
+
+def answer(b):
+    """what goes into the Coq term: an exception counts as no answer"""
+    return None if is_raised(b) else b
+
+
+def call_print_best(ts, name, md):
+    from syne_tune.tuning_status import print_best_metric_found
+    try:
+        b = print_best_metric_found(ts, [name], md)
+    except Exception as e:  # noqa: BLE001
+        return raised(e)
+    return None if b is None else (int(b[0]), plain(b[1]))
+
+
+def call_best_config(fn, m):
+    """Tuner.best_config: TypeError (cannot unpack None) is the documented outcome when no result was seen"""
+    try:
+        t, cfg = fn(m)
+        return int(t), dict(cfg)
+    except TypeError:
+        return None
+    except Exception as e:  # noqa: BLE001
+        return raised(e)
+
+
 def observe_best(ts, names, mode, backend_cfgs):
     """print_best_metric_found and Tuner.best_config (called on a stand-in with the attributes it reads)
     for every metric"""
@@ -611,14 +651,8 @@ def observe_best(ts, names, mode, backend_cfgs):
     for m in queries_for(names):
         name, md = mode_of(names, mode, m)
         with quiet():
-            b = print_best_metric_found(ts, [name], md)
-        bq.append((m, None if b is None else (int(b[0]), plain(b[1]))))
-        with quiet():
-            try:
-                t, cfg = Tuner.best_config(stand_in, m)
-                tq.append((m, (int(t), dict(cfg))))
-            except TypeError:
-                tq.append((m, None))
+            bq.append((m, call_print_best(ts, name, md)))
+            tq.append((m, call_best_config(lambda mm: Tuner.best_config(stand_in, mm), m)))
     return bq, tq
 
 
@@ -686,6 +720,9 @@ def build_case(tb, wallclock, events, rows, history, overall, per_trial, backend
                 v = plain(v)
                 if isinstance(v, numbers.Number) and not isnan(v) and not math.isinf(float(v)):
                     mag += abs(float(v))
+    bq = [(m, answer(b)) for m, b in bq]
+    tq = [(m, answer(b)) for m, b in tq]
+    summaries = [answer(b) for b in summaries]
     bq_t = lst(["(%s, %s, %s, %s)" % (names_t, ms, mref_term(tb, m),
                                       optlit(b, lambda b: "(%s, %s)" % (zlit(b[0]), num_term(b[1])))) for m, b in bq])
     tq_t = lst(["(%s, %s, %s, %s)" % (names_t, ms, mref_term(tb, m),
@@ -710,7 +747,7 @@ SKIP_DISK = object()
 
 
 def property_checks(ctx, case, kind, deliveries, rows, wallclock, df, handed, overall, per_trial, names, mode, bq, tq,
-                    table, eqs, sched=None, summaries=()):
+                    table, eqs, sched=None, summaries=(), run_error=None):
     """independent checker; every failure is a `property` violation with a structural signature"""
     def bad(part, why, **sig):
         s = dict(part=part, kind=kind)
@@ -718,6 +755,9 @@ def property_checks(ctx, case, kind, deliveries, rows, wallclock, df, handed, ov
             s["scheduler"] = sched
         s.update(sig)
         ctx.violation("property", "%s: %s" % (part, why), case=case, signature=s)
+
+    def cbt(*a, **k):
+        return check_best_tuner(*a, known_trials=list(per_trial), **k)
 
     why = check_rows(deliveries, rows, wallclock)
     if why:
@@ -739,17 +779,31 @@ def property_checks(ctx, case, kind, deliveries, rows, wallclock, df, handed, ov
     why = check_stats(handed, overall, per_trial)
     if why:
         bad_or_latch("statistics", why, check_stats(handed, overall, per_trial, "latch") is None)
+    if run_error is not None:
+        bad("run", "Tuner.run() raised %s: %s (after %d delivered results; every run must end normally and store "
+            "its results)" % (run_error["raised"], run_error["message"], len(deliveries)),
+            defect="run_raised", exception=run_error["raised"])
     for m, b in bq:
         name, md = mode_of(names, mode, m)
-        why = check_best_tuner(handed, name, md, b)
+        if is_raised(b):
+            bad("best_tuner", "print_best_metric_found raised %s: %s (%d results handed to the loop; trials without a "
+                "value of %s count with the default +-inf)" % (b["raised"], b["message"], len(handed), name),
+                defect="raised", exception=b["raised"], mode=md)
+            continue
+        why = cbt(handed, name, md, b)
         if why:
-            bad_or_latch("best_tuner", why, check_best_tuner(handed, name, md, b, "latch") is None, mode=md)
+            bad_or_latch("best_tuner", why, cbt(handed, name, md, b, "latch") is None, mode=md)
     for m, b in tq:
         name, md = mode_of(names, mode, m)
+        if is_raised(b):
+            bad("best_config", "Tuner.best_config raised %s: %s (%d results handed to the loop; it may fail only when "
+                "no result was seen)" % (b["raised"], b["message"], len(handed)),
+                defect="raised", exception=b["raised"], mode=md)
+            continue
         bb = None if b is None else (b[0], None)
-        why = check_best_tuner(handed, name, md, bb)
+        why = cbt(handed, name, md, bb)
         if why:
-            bad_or_latch("best_config", why, check_best_tuner(handed, name, md, bb, "latch") is None, mode=md)
+            bad_or_latch("best_config", why, cbt(handed, name, md, bb, "latch") is None, mode=md)
     for m, c in eqs:
         name, md = mode_of(names, mode, m)
         why = check_best_exp(table, name, md, c)
@@ -757,8 +811,12 @@ def property_checks(ctx, case, kind, deliveries, rows, wallclock, df, handed, ov
             bad("best_experiment", why, mode=md)
     for b in summaries:
         name, md = mode_of(names, mode, 0)
-        why = check_best_tuner(handed, name, md, b)
-        if why and check_best_tuner(handed, name, md, b, "latch") is None:
+        if is_raised(b):
+            bad("final_summary", "the summary call of Tuner.run() raised %s: %s (%d results handed to the loop)"
+                % (b["raised"], b["message"], len(handed)), defect="raised", exception=b["raised"], mode=md)
+            continue
+        why = cbt(handed, name, md, b)
+        if why and cbt(handed, name, md, b, "latch") is None:
             bad_or_latch("final_summary", why, True)
         elif why:
             extra = dict(defect="mode_list_read_as_max") if isinstance(mode, list) and md == "min" else {}
@@ -895,8 +953,13 @@ def run_seq(ctx, spec, workdir):
     bq, tq = observe_best(ts, names, mode, backend_cfgs)
     from syne_tune.tuning_status import print_best_metric_found
     with quiet() as out:  # exactly the call in the `finally` block of Tuner.run()
-        print_best_metric_found(tuning_status=ts, metric_names=list(names), mode=copy.copy(mode))
-    summaries = [parse_summary(out.getvalue())]
+        try:
+            print_best_metric_found(tuning_status=ts, metric_names=list(names), mode=copy.copy(mode))
+            summaries = None
+        except Exception as e:  # noqa: BLE001
+            summaries = [raised(e)]
+    if summaries is None:
+        summaries = [parse_summary(out.getvalue())]
     table = table_rows(df) if df is not None else []
     eqs = observe_exp(ctx, df, names, mode, workdir) if df is not None and len(df.columns) else []
     return dict(deliveries=deliveries, events=events, handed=handed, history=history, rows=rows, df=df,
@@ -1125,6 +1188,9 @@ def gen_run_spec(rng, idx):
         styles[0] = rng.choice(["grid", "float", "int"])  # the rung rule needs comparable numbers
     elif kind == "fifo":  # FIFOScheduler formats its target metrics as floats: numbers only (NaN, inf allowed)
         styles = [rng.choice(["grid", "int", "float", "nan", "inf"]) for _ in names]
+    never_numeric = kind == "scripted" and rng.random() < 0.35
+    if never_numeric:  # the scheduler's first metric has no numeric value in any result, the others are numbers
+        styles = ["str"] + [rng.choice(["grid", "int", "float", "nan"]) for _ in names[1:]]
     aux_style = rng.choice(["mixed", "str", "nan", "grid"])  # an extra reported value that is no target metric
     n_scripts = rng.randint(3, 7)
     scripts = []
@@ -1134,8 +1200,9 @@ def gen_run_spec(rng, idx):
         for _ in range(n_rep):
             rep = {}
             for j, (nm, sty) in enumerate(zip(names, styles)):
-                if kind != "scripted" or rng.random() < 0.9:
-                    rep[nm] = gen_value(rng, sty)
+                if kind != "scripted" or never_numeric or rng.random() < 0.9:
+                    rep[nm] = gen_value(rng, sty) if not (never_numeric and sty == "str") else \
+                        rng.choice(["diverged", "diverged", None, "a"])
             if rng.random() < 0.7:
                 rep["aux"] = gen_value(rng, aux_style)
             reps.append(rep)
@@ -1207,8 +1274,12 @@ def run_whole(ctx, spec):
                       sleep_time=0, results_update_interval=spec["rui"], print_update_interval=1e9, max_failures=1000,
                       tuner_name=spec["name"], suffix_tuner_name=False, save_tuner=False, callbacks=[store, rec])
         tuner.tuning_status = cls.RecordingStatus(metric_names=list(names))
-        tuner.run()
-        summaries = [parse_summary(out.getvalue())]
+        run_error = None
+        try:
+            tuner.run()
+        except Exception as e:  # noqa: BLE001
+            run_error = raised(e)
+        summaries = [parse_summary(out.getvalue())] if run_error is None else []
         ts = tuner.tuning_status
         rows = [dict(r) for r in store.results]
         deliveries = [dict(d, status=st) for d, st in zip(sched.delivered, rec.statuses)]
@@ -1219,13 +1290,8 @@ def run_whole(ctx, spec):
         bq, tq = [], []
         for m in queries_for(names):
             name, md = mode_of(names, mode, m)
-            b = print_best_metric_found(ts, [name], md)
-            bq.append((m, None if b is None else (int(b[0]), plain(b[1]))))
-            try:
-                t, cfg = tuner.best_config(m)
-                tq.append((m, (int(t), dict(cfg))))
-            except TypeError:
-                tq.append((m, None))
+            bq.append((m, call_print_best(ts, name, md)))
+            tq.append((m, call_best_config(tuner.best_config, m)))
         df, eqs = None, []
         if mod is not None:
             er = mod.load_experiment(spec["name"], download_if_not_found=False)
@@ -1246,7 +1312,7 @@ def run_whole(ctx, spec):
     table = table_rows(df) if df is not None else []
     return dict(deliveries=deliveries, events=events, handed=list(rec.handed), history=list(ts.calls), rows=rows, df=df,
                 overall=overall, per_trial=per_trial, backend_cfgs=backend_cfgs, bq=bq, tq=tq, table=table, eqs=eqs,
-                stores=stores, n_delivered=n_delivered, meta_ok=meta_ok, summaries=summaries)
+                stores=stores, n_delivered=n_delivered, meta_ok=meta_ok, summaries=summaries, run_error=run_error)
 
 
 def run_cases(ctx, replay):
@@ -1285,7 +1351,11 @@ def run_cases(ctx, replay):
         property_checks(ctx, case, "run", obs["deliveries"], obs["rows"], True,
                         obs["df"] if experiments_module(ctx) is not None else SKIP_DISK,
                         obs["handed"], obs["overall"], obs["per_trial"], spec["names"], spec["mode"], obs["bq"],
-                        obs["tq"], obs["table"], obs["eqs"], sched=sched, summaries=obs["summaries"])
+                        obs["tq"], obs["table"], obs["eqs"], sched=sched, summaries=obs["summaries"],
+                        run_error=obs["run_error"])
+        ctx.h("run_first_metric_never_numeric",
+              bool(obs["handed"]) and not any(isinstance(plain(r.get(spec["names"][0])), numbers.Number)
+                                              for _, r in obs["handed"]))
         if (obs["stores"] or [0])[-1] != len(obs["rows"]):
             ctx.violation("property", "disk: last store wrote %r rows of %d" % (obs["stores"][-1:], len(obs["rows"])),
                           case=case, signature=dict(part="disk", kind="run", scheduler=sched,
